@@ -3,6 +3,7 @@
 //
 //   seqmem copy <simd> <shift> <size> <seed>
 //   seqmem zero <simd> <shift> <size> <seed>
+//   seqmem copyL|zeroL <simd> <shift> <size> <seed>   large blocks: 5x5 misalignments (0,1,8,16,31) instead of 32x32
 //   seqmem cfg  0 0 0 0                      -> "simd=<0|1> shift=<n> block=<bytes>"
 //
 // For one length the routine is run at every source misalignment 0..31 x destination misalignment
@@ -28,17 +29,22 @@ static unsigned char *aligned(size_t n) {
     return static_cast<unsigned char *>(p);
 }
 
-static std::string run(bool copy, size_t size, uint64_t seed) {
+// `sparse`: large blocks — a handful of misalignments (0, 1, 8, 16, 31 relative to a 64-byte boundary) instead of all 32x32.
+static const unsigned SPARSE[5] = {0, 1, 8, 16, 31};
+
+static std::string run(bool copy, size_t size, uint64_t seed, bool sparse = false) {
     std::vector<unsigned char> pat(size), ref(size), zero(size, 0);
     for (size_t i = 0; i < size; i++) pat[i] = static_cast<unsigned char>((i * 131 + seed * 7 + i / 256 + 1) % 256);
     // independent reference: a plain byte loop
     for (size_t i = 0; i < size; i++) ref[i] = copy ? pat[i] : 0;
     std::string first;
     char        buf[96];
-    for (unsigned sa = 0; sa < (copy ? 32u : 1u); sa++) {
+    for (unsigned sai = 0; sai < (copy ? (sparse ? 5u : 32u) : 1u); sai++) {
+        const unsigned sa = sparse ? SPARSE[sai] : sai;
         unsigned char *ps = aligned(sa + size);
         if (size) memcpy(ps + sa, pat.data(), size);
-        for (unsigned da = 0; da < 32; da++) {
+        for (unsigned dai = 0; dai < (sparse ? 5u : 32u); dai++) {
+            const unsigned da = sparse ? SPARSE[dai] : dai;
             // pass A: exact-size destination
             unsigned char *pd = aligned(da + size);
             memset(pd, 0xAA, da + size);
@@ -87,6 +93,8 @@ int main() {
         const uint64_t seed = strtoull(t[5].c_str(), nullptr, 10);
         if (t[1] == "copy") vh::emit(run(true, size, seed));
         else if (t[1] == "zero") vh::emit(run(false, size, seed));
+        else if (t[1] == "copyL") vh::emit(run(true, size, seed, true));
+        else if (t[1] == "zeroL") vh::emit(run(false, size, seed, true));
         else vh::emit("bad-op");
     }
     return 0;
